@@ -126,7 +126,7 @@ def run(ctx):
     check_constant(ctx)
     check_weaver(ctx, wm)
     from . import c10
-    c10.check_scans(ctx, kinds=('lower',))      # the 'constant' method is built on the lower-neighbour scan
+    c10.check_scans(ctx, kinds=('lower',), fill_true_only=True)      # the 'constant' method is built on the lower-neighbour scan
     ctx.notes.append('NOT DECIDED: every numerical clause (exactness at the knots, reproduction of affine data, spline values): NumPy/SciPy contracts.')
     ctx.trust('numpy.interp(x, xp, fp) interpolates (xp, fp) at x; CubicSpline / BSpline(*splrep) interpolate their data (library contracts)',
               'the neighbour search returns the defined neighbour (C10)')
